@@ -3,7 +3,7 @@
    Proofs/BackoffP.v, with their assumptions printed.
 
    Vocabulary (Model/Backoff.v, Proofs/BackoffP.v):
-     set_default b            the receiver after setDefault (0 fields -> 20 / 2 / 180000)
+     set_default b            the receiver after setDefault (0 fields -> the code's default constants)
      expo b n                 Z.min (cap b) (base b * factor b ^ n), in ms
      dur_for_attempt b n r    durationForAttempt(n); r = what the global rand source
                               answers; result = (receiver, Dur ns | Panic), ns an int64
@@ -97,16 +97,20 @@ Theorem C19_exec_is_formula : forall b n,
   positive_params b -> 0 <= n -> expo_exec b n = expo b n.
 Proof. exact expo_exec_spec. Qed.
 
-(* Defaults: the model's constants are the code's (Generated.v is regenerated from
-   /repo on every run); the default cap is three minutes; an all-zero value gets them
-   and satisfies the hypotheses of the theorems above. *)
+(* Defaults.  The model's defaults ARE the code's constants (Generated.v is regenerated
+   from /repo on every run; what is needed of them is BackoffP.defaults_ok, re-proved
+   each time).  A value with every field unset gets them and is inside the hypotheses of
+   the theorems above; and whenever the cap is left unset, no delay exceeds three
+   minutes ("three minutes by default"), for every attempt, with and without jitter. *)
 Theorem C19_defaults :
-  dflt_base = default_base /\ dflt_factor = default_factor /\ dflt_cap = default_cap /\
-  dflt_cap * millisecond = 3 * 60 * 1000000000 /\
-  (forall nj a, set_default (mkBackoff nj 0 0 0 a) = mkBackoff nj 20 2 180000 a) /\
-  (forall nj a, bounds (set_default (mkBackoff nj 0 0 0 a))).
+  (forall nj a, set_default (mkBackoff nj 0 0 0 a)
+                = mkBackoff nj default_base default_factor default_cap a) /\
+  (forall nj a, bounds (set_default (mkBackoff nj 0 0 0 a))) /\
+  (forall b n r, cap b = 0 -> bounds (set_default b) -> 0 <= n ->
+     exists ns, snd (dur_for_attempt b n r) = Dur ns /\ 0 <= ns <= 3 * 60 * 1000000000).
 Proof.
-  repeat split; try reflexivity; cbn; discriminate.
+  split; [exact set_default_all_zero|]. split; [exact bounds_all_zero|].
+  exact default_cap_three_minutes.
 Qed.
 
 (* D22 (known finding, not repaired): "every positive base, factor and cap" fails for
@@ -125,11 +129,11 @@ Qed.
 (* non-vacuity: a configuration inside the hypotheses, its first delays without
    jitter, reset, and a jittered query *)
 Example C19_example :
-  bounds (set_default (fresh true 0 3 1000)) /\
-  snd (dur_seq (fresh true 0 3 1000) [0; 0; 0; 0; 0; 0])
+  bounds (set_default (fresh true 20 3 1000)) /\
+  snd (dur_seq (fresh true 20 3 1000) [0; 0; 0; 0; 0; 0])
   = [Dur 20000000; Dur 60000000; Dur 180000000; Dur 540000000; Dur 1000000000; Dur 1000000000] /\
-  snd (dur_for_attempt (fresh true 0 3 1000) 2147483648 0) = Dur 1000000000 /\
-  snd (dur_for_attempt (fresh false 0 3 1000) 2 1234567) = Dur 127000000 /\
+  snd (dur_for_attempt (fresh true 20 3 1000) 2147483648 0) = Dur 1000000000 /\
+  snd (dur_for_attempt (fresh false 20 3 1000) 2 1234567) = Dur 127000000 /\
   snd (dur_for_attempt (fresh false 5 2 (-1)) 0 7) = Panic.
 Proof. repeat split; try reflexivity; cbn; discriminate. Qed.
 
